@@ -186,7 +186,7 @@ class Resolver1:
         if isinstance(e, ast.Subscript):
             b = self.classify(e.value, depth + 1)
             # x.iloc[k] / x.loc[k]
-            if isinstance(e.value, ast.Attribute) and e.value.attr in ('iloc',):
+            if isinstance(e.value, ast.Attribute) and e.value.attr in ('iloc', 'loc'):
                 b = self.classify(e.value.value, depth + 1)
                 if b.kind == 'whole':
                     sl = e.slice
